@@ -84,7 +84,13 @@ pub fn doc_tails() -> Vec<Vec<P>> {
         vec![pos("FILE", Some("file positional help"), Strict::Any)],
         vec![pos("NOHELP", None, Strict::Any).opt()],
         vec![pos("STRICTP", Some("strict positional help"), Strict::Strict).many()],
-        vec![P::Alt(vec![c1.clone(), c2.clone(), c3]).opt()],
+        // (the fourth command documents nothing of its own: one positional without help)
+        vec![P::Alt(vec![c1.clone(), c2.clone(), c3, {
+            let mut bare = Opts::new(P::Seq(vec![pos("BAREPOS", None, Strict::Any)]));
+            bare.cfg.descr = Some(DocSpec::plain("a command without documented items"));
+            bare.cfg.footer = Some(DocSpec::plain("footer of the bare command"));
+            P::Cmd { name: "bare".into(), shorts: vec![], longs: vec![], inner: Box::new(bare), adjacent: false, help: None }
+        }]).opt()],
         vec![c1.clone()],
         // command paths that differ only in dash-versus-nesting (anchors and section keys derived
         // from them must stay distinct)
